@@ -124,22 +124,12 @@ func c13bReach(c *fw.Ctx, n *consensus.Network, policy string, max int, ops, out
 			r.panicFn, r.panicMsg, r.failStep = "ApplyHeader", msg, &st
 			break
 		}
-		// statement oracle on the way: clamp (final cut), never zero, total work strictly increasing
-		if i > 0 {
-			D, D1 := c13BigW(s.Difficulty), c13BigW(next.Difficulty)
-			m := new(big.Int).Div(D, big.NewInt(250))
-			if m.Sign() == 0 {
-				m.SetInt64(1)
-			}
-			if D1.Sign() == 0 {
-				res.Violate(fw.Violation{Key: "c13-zero:reach:" + policy, What: "difficulty became zero on an accepted chain", Replay: st.replay(), Expected: "≥ 1", Observed: "0"})
-			}
-			if D1.Cmp(new(big.Int).Sub(D, m)) < 0 || D1.Cmp(new(big.Int).Add(D, m)) > 0 {
-				res.Violate(fw.Violation{Key: "c13-clamp:finalcut:reach", What: "clamp exceeded on a boundary chain", Replay: st.replay(), Expected: "±max(D/250,1)", Observed: D1.String()})
-			}
-			if c13BigW(next.TotalWork).Cmp(c13BigW(s.TotalWork)) <= 0 {
-				res.Violate(fw.Violation{Key: "c13-totalwork-decreased", What: "cumulative work did not increase on a boundary chain", Replay: st.replay(), Expected: "increase", Observed: c13BigW(next.TotalWork).String()})
-			}
+		// the full statement oracle on EVERY header (never zero, clamp, total work monotone/strict
+		// and exact against math/big, decayed work exact, inverse relation) …
+		c13Oracle(c, st, next, i == 0, map[bool]string{true: "genesis", false: c13Era(s)}[i == 0])
+		// … and header ≡ block at sampled steps
+		if i > 0 && i%97 == 0 {
+			c13bHeaderVsBlock(c, st, next)
 		}
 		s = next
 		r.headers++
@@ -226,9 +216,13 @@ func runC13B(c *fw.Ctx) {
 	}
 
 	// ------------------------------------------------------------ (B) boundary table
-	c13bTable(c, &ops, &outs)
+	c13bGuard(c, "table", func() { c13bTable(c, &ops, &outs) })
 	// ------------------------------------------------------------ (C) configuration
-	c13bConfig(c)
+	c13bGuard(c, "config", func() { c13bConfig(c) })
+	// ------------------------------------------------------------ (D) limb boundaries of cumulative work
+	c13bGuard(c, "limbs", func() { c13bLimbChains(c, &ops, &outs) })
+	// ------------------------------------------------------------ (E) Work operations on limb-boundary operands
+	c13bGuard(c, "work-ops", func() { c13bWorkOps(c, &ops, &outs) })
 
 	for i := 0; i < len(ops); i += 1 + len(ops)/6 {
 		res.Sample(map[string]string{"op": c13Short(ops[i]), "go": c13Short(outs[i])})
@@ -555,4 +549,205 @@ func c13bReplay(c *fw.Ctx) {
 	}
 	c.Res.Eval(st.line(), true)
 	c.Compare([]string{st.line()}, []string{out})
+}
+
+// c13bGuard keeps a bug of the harness itself (a panic outside fw.Recover) from hiding the
+// findings of the other families: it is reported as a disagreement, not as a crash.
+func c13bGuard(c *fw.Ctx, family string, f func()) {
+	if p, msg := fw.Recover(f); p {
+		c.Res.Note("harness family %s crashed: %s", family, msg)
+		c.Res.Disagree(fw.Disagreement{Op: "(harness family " + family + ")", Go: "", Model: msg, Note: "harness-internal panic"})
+	}
+}
+
+// c13bHeaderVsBlock: the same step through ApplyBlock (an empty block with that header's
+// parent and timestamp) must give the same proof-of-work state.
+func c13bHeaderVsBlock(c *fw.Ctx, st c13Step, viaHeader consensus.State) {
+	b := types.Block{ParentID: st.bh.ParentID, Nonce: st.bh.Nonce, Timestamp: st.bh.Timestamp,
+		MinerPayouts: []types.SiacoinOutput{{Address: types.VoidAddress, Value: st.s.BlockReward()}},
+		V2:           &types.V2BlockData{Height: st.s.Index.Height + 1, Commitment: st.bh.Commitment}}
+	var viaBlock consensus.State
+	if p, msg := fw.Recover(func() { viaBlock, _ = consensus.ApplyBlock(st.s, b, consensus.V1BlockSupplement{}, st.target) }); p {
+		c.Res.Violate(fw.Violation{Key: "c13-header-vs-block", What: "ApplyBlock panics (" + msg + ") where ApplyHeader succeeds", Replay: st.replay(), Expected: "same state", Observed: "panic"})
+		return
+	}
+	c.Res.Count("header-vs-block:steps")
+	if c13StateTokens(viaBlock) != c13StateTokens(viaHeader) {
+		c.Res.Violate(fw.Violation{Key: "c13-header-vs-block", What: "header-only and full-block application give different proof-of-work state on a high-work chain",
+			Replay: st.replay(), Expected: c13StateTokens(viaBlock), Observed: c13StateTokens(viaHeader)})
+	}
+}
+
+// c13bLimbChains: per-block difficulty below 2^64, cumulative (and decayed) work started just
+// below every multiple-of-2^64 limb boundary, in every era; full oracle on every header.
+func c13bLimbChains(c *fw.Ctx, ops, outs *[]string) {
+	res := c.Res
+	r := c.Rng
+	eras := []struct {
+		name                          string
+		oak, fix, asic, allow, final_ uint64
+		at                            uint64
+	}{
+		{"preoak", 5000, 5000, 5001, 6000, 7000, 700},
+		{"oak", 10, 12, 20, 6000, 7000, 100},
+		{"v2", 10, 12, 20, 50, 7000, 100},
+		{"finalcut", 10, 12, 20, 50, 60, 100},
+		{"oak->v2->finalcut", 10, 12, 20, 110, 125, 100},
+	}
+	type start struct {
+		k    uint  // boundary 2^k·m
+		mult int64 // m
+		dBit uint  // difficulty ≈ 2^dBit (< 2^64)
+		back int64 // start this many difficulties below the boundary
+	}
+	var starts []start
+	for _, k := range []uint{64, 128, 192} {
+		for _, m := range []int64{1, 2, 3, 1 << 20} {
+			starts = append(starts, start{k, m, uint(20 + r.Intn(43)), int64(1 + r.Intn(6))})
+		}
+		starts = append(starts, start{k, 1, 63, 2}, start{k, 1, 1, 3})
+	}
+	for _, e := range eras {
+		for _, sp := range starts {
+			n := c13bNet(192, 10*time.Minute)
+			n.HardforkOak.Height, n.HardforkOak.FixHeight = e.oak, e.fix
+			n.HardforkASIC.Height = e.asic
+			n.HardforkV2.AllowHeight, n.HardforkV2.RequireHeight, n.HardforkV2.FinalCutHeight = e.allow, e.allow, e.final_
+			D := c13bPow2(sp.dBit)
+			D.Add(D, new(big.Int).Rand(r, D)) // [2^dBit, 2^(dBit+1)) … still < 2^64 for dBit ≤ 62
+			if D.BitLen() > 64 {
+				D = new(big.Int).Sub(c13bPow2(64), big.NewInt(1+int64(r.Intn(1000))))
+			}
+			boundary := new(big.Int).Mul(c13bPow2(sp.k), big.NewInt(sp.mult))
+			tw := new(big.Int).Sub(boundary, new(big.Int).Mul(D, big.NewInt(sp.back)))
+			if tw.Sign() <= 0 { // boundary 2^64 with a difficulty close to 2^64: start one block below it
+				tw = new(big.Int).Sub(boundary, D)
+			}
+			tw.Add(tw, big.NewInt(int64(r.Intn(3)))) // land on, one below, one above
+			if tw.Sign() <= 0 {
+				tw = big.NewInt(1)
+			}
+			s := n.GenesisState()
+			s.Index.Height = e.at
+			r.Read(s.Index.ID[:])
+			now := n.HardforkOak.GenesisTimestamp.Unix() + int64(e.at)*600
+			for i := range s.PrevTimestamps {
+				s.PrevTimestamps[i] = time.Unix(now-int64(i)*600, 0)
+			}
+			s.Difficulty = c13WorkOf(D)
+			s.ChildTarget = c13IDOf(new(big.Int).Div(c13MaxT, D))
+			s.TotalWork = c13WorkOf(tw)
+			s.Depth = c13IDOf(new(big.Int).Div(c13MaxT, tw))
+			// decayed work also next to a limb boundary (it moves by about +D - OakWork/200 per block)
+			ow := new(big.Int).Sub(c13bPow2(64), new(big.Int).Div(D, big.NewInt(3)))
+			if sp.k > 64 && r.Intn(2) == 0 {
+				ow = new(big.Int).Mul(D, big.NewInt(200))
+			}
+			s.OakWork = c13WorkOf(ow)
+			s.OakTarget = c13IDOf(new(big.Int).Div(c13MaxT, ow))
+			s.OakTime = 200 * n.BlockInterval
+			if e.name == "finalcut" {
+				s.Depth, s.ChildTarget, s.OakTarget = types.BlockID{}, types.BlockID{}, types.BlockID{}
+			}
+			res.Count("limb-chains:" + e.name)
+			ts := now
+			for i := 0; i < 40; i++ {
+				ts += 600 + int64(r.Intn(120)) - 60
+				bh := types.BlockHeader{ParentID: s.Index.ID, Timestamp: time.Unix(ts, 0)}
+				r.Read(bh.Commitment[:])
+				st := c13Step{n: n, s: s, bh: bh, target: time.Unix(now-600000, 0)}
+				var next consensus.State
+				p, msg := fw.Recover(func() { next = consensus.ApplyHeader(s, bh, st.target) })
+				out := "panic"
+				if !p {
+					out = "ok " + c13StateTokens(next)
+				}
+				*ops = append(*ops, st.line())
+				*outs = append(*outs, out)
+				res.Eval(st.line(), true)
+				if p {
+					res.Violate(fw.Violation{Key: "c13-panic:ApplyHeader:limb-boundary", What: "ApplyHeader panics (" + msg + ") next to a 2^64 limb boundary of cumulative work, difficulty < 2^64",
+						Replay: st.replay(), Expected: "no panic", Observed: "panic: " + msg})
+					break
+				}
+				c13Oracle(c, st, next, false, c13Era(s))
+				if i%7 == 0 && c13ChildHeight(s) >= n.HardforkV2.AllowHeight {
+					c13bHeaderVsBlock(c, st, next)
+				}
+				res.Count("limb-chain-headers")
+				s = next
+			}
+		}
+	}
+}
+
+// c13bWorkOps: every Work operation against math/big on ALL pairs of limb-boundary operands.
+func c13bWorkOps(c *fw.Ctx, ops, outs *[]string) {
+	res := c.Res
+	var vs []*big.Int
+	add := func(b *big.Int) {
+		if b.Sign() >= 0 && b.Cmp(c13Two256) < 0 {
+			vs = append(vs, b)
+		}
+	}
+	add(big.NewInt(0))
+	add(big.NewInt(1))
+	for _, k := range []uint{63, 64, 65, 127, 128, 129, 191, 192, 193, 255, 256} {
+		p := c13bPow2(k)
+		for _, d := range []int64{-2, -1, 0, 1} {
+			add(new(big.Int).Add(p, big.NewInt(d)))
+		}
+	}
+	// all-ones low limbs under a non-zero high limb, and alternating limbs
+	add(new(big.Int).Sub(new(big.Int).Lsh(big.NewInt(5), 192), big.NewInt(1)))
+	add(new(big.Int).Add(new(big.Int).Lsh(new(big.Int).Sub(c13bPow2(64), big.NewInt(1)), 128), new(big.Int).Sub(c13bPow2(64), big.NewInt(1))))
+	add(new(big.Int).Lsh(new(big.Int).Sub(c13bPow2(64), big.NewInt(1)), 64))
+	small := []uint64{0, 1, 2, 3, 5, 200, 250, 1<<32 - 1, 1 << 32, 1<<63 - 1, 1 << 63, 1<<64 - 2, 1<<64 - 1}
+	check := func(op string, a, b *big.Int, got consensus.Work, panicked bool, gotCmp int, exact *big.Int, wantCmp int) {
+		want := "panic"
+		if op == "cmp" {
+			want = fmt.Sprint(wantCmp)
+		} else if exact != nil && exact.Sign() >= 0 && exact.Cmp(c13Two256) < 0 {
+			want = "ok " + exact.String()
+		}
+		out := "panic"
+		if op == "cmp" {
+			out = fmt.Sprint(gotCmp)
+		} else if !panicked {
+			out = "ok " + c13BigW(got).String()
+		}
+		line := fmt.Sprintf("pow-work %s %s %s", op, a, b)
+		res.Eval(line, true)
+		res.Count("work-op:" + op)
+		if out != want {
+			res.Violate(fw.Violation{Key: "c13-work-op:" + op, What: "Work." + op + " differs from exact 256-bit arithmetic (math/big) on limb-boundary operands",
+				Replay: map[string]any{"kind": "work", "line": line}, Expected: want, Observed: out})
+		}
+		*ops = append(*ops, line)
+		*outs = append(*outs, out)
+	}
+	for _, a := range vs {
+		wa := c13WorkOf(a)
+		for _, b := range vs {
+			wb := c13WorkOf(b)
+			var got consensus.Work
+			p, _ := fw.Recover(func() { got = consensus.VerifWorkAdd(wa, wb) })
+			check("add", a, b, got, p, 0, new(big.Int).Add(a, b), 0)
+			p, _ = fw.Recover(func() { got = consensus.VerifWorkSub(wa, wb) })
+			check("sub", a, b, got, p, 0, new(big.Int).Sub(a, b), 0)
+			check("cmp", a, b, got, false, wa.Cmp(wb), nil, a.Cmp(b))
+		}
+		for _, v := range small {
+			bv := new(big.Int).SetUint64(v)
+			var got consensus.Work
+			p, _ := fw.Recover(func() { got = consensus.VerifWorkMul64(wa, v) })
+			check("mul64", a, bv, got, p, 0, new(big.Int).Mul(a, bv), 0)
+			p, _ = fw.Recover(func() { got = consensus.VerifWorkDiv64(wa, v) })
+			var q *big.Int
+			if v != 0 {
+				q = new(big.Int).Div(a, bv)
+			}
+			check("div64", a, bv, got, p, 0, q, 0)
+		}
+	}
 }
